@@ -41,6 +41,12 @@ const preludeBase = `(set-logic ALL)
 (declare-fun tassignable (Int Int) Bool)
 (declare-fun tnumin (Int) Int)
 (declare-fun sprint1 (Val) Str)
+(declare-fun sprintf5 (Str Val Val Val Val Val) Str)
+(declare-fun requote (Str) Str)
+(declare-fun unquote (Str) Str)
+(assert (forall ((s Str)) (! (= (unquote (requote s)) s) :pattern ((requote s)))))
+(declare-fun tokdelim (Str Int) Str)
+(assert (forall ((f Str) (a Val) (b Val) (c Val) (x Val) (d Val)) (! (and (= (tokdelim (sprintf5 f a b c x d) 0) (unquote (pl_str a))) (= (tokdelim (sprintf5 f a b c x d) 1) (unquote (pl_str b))) (= (tokdelim (sprintf5 f a b c x d) 2) (unquote (pl_str c))) (= (tokdelim (sprintf5 f a b c x d) 3) (unquote (pl_str d)))) :pattern ((sprintf5 f a b c x d)))))
 (declare-fun tvariadic (Int) Bool)
 (declare-fun tin (Int Int) Int)
 (assert (forall ((t Int)) (! (tassignable t t) :pattern ((tassignable t t)))))
